@@ -19,7 +19,7 @@ from . import verus
 from .rs import LostAnchor
 from .unit import UnitBuilder, LineMap, VERIF, REPO
 
-OUT = os.path.join(VERIF, 'out')
+OUT = os.environ.get('VERIF_OUT') or os.path.join(VERIF, 'out')
 _pool = concurrent.futures.ThreadPoolExecutor(max_workers=8)
 CANARY_RX = re.compile(r'^(.*)\.<canary>$')
 
